@@ -34,7 +34,12 @@ def capture_stmts(p, cap, var, extra=None):
     return ss
 
 
-def clos_case(where, exit_, cap):
+NESTS = ["body", "do", "if"]      # where in the construct the captured local lives: directly in the body or in a nested block
+
+
+def clos_case(where, exit_, cap, nest="body"):
+    if nest != "body" and where not in ("while", "repeat", "fornum", "forin"):
+        return None
     if exit_ in ("break", "goto_cont") and where not in LOOPS:
         return None
     if where == "repeatcond" and exit_ in ("goto_cont",):
@@ -71,6 +76,16 @@ def clos_case(where, exit_, cap):
         if exit_ == "co_death":
             return [p.emit([p.str("dying")])]
     guard = lambda cond, ss: p.if_([cond], [p.block(ss)])
+
+    def nested(stmts, keep_first=0):
+        """move the statements declaring/capturing v (all but the first keep_first and a trailing label) into a nested block"""
+        if nest == "body":
+            return stmts
+        tail = [stmts[-1]] if p.nodes[stmts[-1]]["k"] == "label" else []
+        core = stmts[keep_first:len(stmts) - len(tail)]
+        blk = p.block(core)
+        wrapped = p.do(blk) if nest == "do" else p.if_([p.true()], [blk])
+        return stmts[:keep_first] + [wrapped] + tail
     # ---- the scope construct
     body = []
     if where == "block":
@@ -80,13 +95,13 @@ def clos_case(where, exit_, cap):
             + capture_stmts(p, cap, "v") + [guard(p.bin("==", p.id("i"), p.num(2)), exit_stmt())]
         if exit_ == "goto_cont":
             inner.append(p.label("cont"))
-        body += [p.local(["i"], [p.num(0)]), p.while_(p.bin("<", p.id("i"), p.num(3)), p.block(inner))]
+        body += [p.local(["i"], [p.num(0)]), p.while_(p.bin("<", p.id("i"), p.num(3)), p.block(nested(inner, 1)))]
     elif where == "repeat":
         inner = [p.assign([p.id("i")], [p.bin("+", p.id("i"), p.num(1))]), p.local(["v"], [p.bin("*", p.id("i"), p.num(10))])] \
             + capture_stmts(p, cap, "v") + [guard(p.bin("==", p.id("i"), p.num(2)), exit_stmt())]
         if exit_ == "goto_cont":
             inner.append(p.label("cont"))
-        body += [p.local(["i"], [p.num(0)]), p.repeat(p.block(inner), p.bin(">=", p.id("i"), p.num(3)))]
+        body += [p.local(["i"], [p.num(0)]), p.repeat(p.block(nested(inner, 1)), p.bin(">=", p.id("i"), p.num(3)))]
     elif where == "repeatcond":
         inner = [p.assign([p.id("i")], [p.bin("+", p.id("i"), p.num(1))]), p.local(["v"], [p.bin("*", p.id("i"), p.num(10))])] \
             + capture_stmts(p, cap, "v") + [guard(p.bin("==", p.id("i"), p.num(2)), exit_stmt())]
@@ -96,13 +111,13 @@ def clos_case(where, exit_, cap):
             + [guard(p.bin("==", p.id("i"), p.num(2)), exit_stmt())]
         if exit_ == "goto_cont":
             inner.append(p.label("cont"))
-        body.append(p.fornum("i", p.num(1), p.num(3), 0, p.block(inner)))
+        body.append(p.fornum("i", p.num(1), p.num(3), 0, p.block(nested(inner))))
     elif where == "forin":
         inner = [p.local(["v"], [p.bin("*", p.id("x"), p.num(10))])] + capture_stmts(p, cap, "v", extra="x") \
             + [guard(p.bin("==", p.id("k"), p.num(2)), exit_stmt())]
         if exit_ == "goto_cont":
             inner.append(p.label("cont"))
-        body.append(p.forin(["k", "x"], [p.call(p.id("ipairs"), [p.table([("p", p.num(5)), ("p", p.num(6)), ("p", p.num(7))])])], p.block(inner)))
+        body.append(p.forin(["k", "x"], [p.call(p.id("ipairs"), [p.table([("p", p.num(5)), ("p", p.num(6)), ("p", p.num(7))])])], p.block(nested(inner))))
     elif where == "function":
         fb = capture_stmts(p, cap, "v") + exit_stmt()
         body += [p.localfunction("inner", p.func(["v"], p.block(fb))), p.emit([p.call(p.id("inner"), [p.num(10)])])]
@@ -135,10 +150,10 @@ def clos_case(where, exit_, cap):
 
 def all_clos():
     out = []
-    for w, e, c in itertools.product(WHERES, EXITS, CAPTURES):
-        r = clos_case(w, e, c)
+    for w, e, c, n in itertools.product(WHERES, EXITS, CAPTURES, NESTS):
+        r = clos_case(w, e, c, n)
         if r:
-            out.append(((w, e, c), r))
+            out.append(((w, e, c, n), r))
     return out
 
 
